@@ -4,6 +4,8 @@ import (
 	"fmt"
 	"go/ast"
 	"go/token"
+	"go/types"
+	"strings"
 
 	"verif/engine/core"
 )
@@ -77,4 +79,92 @@ func listAppendAdvancesCursor(c *core.Ctx) {
 			})
 		}
 	}
+}
+
+// appendedTailIsUsed: some list builders link elements behind their receiver and RETURN the new tail
+// (PathAttribute.AddOptionalPathAttributes).  A caller that drops that result and then appends behind the same old
+// tail again overwrites the link made by the first call: everything the first call appended (COMMUNITIES,
+// LARGE_COMMUNITIES) is cut out of the emitted attribute list.
+func appendedTailIsUsed(c *core.Ctx, rule string) {
+	p := c.P
+	next := p.Field(pktPkg, "PathAttribute", "Next")
+	if next == nil {
+		c.Check(false, rule, "PathAttribute.Next", 0, "field not found")
+		return
+	}
+	// appenders: methods on *PathAttribute that write some .Next and return *PathAttribute
+	appender := map[*types.Func]bool{}
+	for _, f := range p.MethodsOf(pktPkg, "PathAttribute") {
+		if f.Decl.Body == nil {
+			continue
+		}
+		sig := f.Obj.Type().(*types.Signature)
+		if sig.Results().Len() != 1 || !strings.HasSuffix(sig.Results().At(0).Type().String(), "packet.PathAttribute") {
+			continue
+		}
+		for _, a := range core.FieldAccesses(f.Pkg, f.Decl.Body) {
+			if a.Field == next && a.Write {
+				appender[f.Obj] = true
+			}
+		}
+	}
+	n := 0
+	for _, f := range p.FuncsIn(pktPkg) {
+		if f.Decl.Body == nil || isTestFn(p, f) {
+			continue
+		}
+		g := p.CFG(f)
+		ast.Inspect(f.Decl.Body, func(nd ast.Node) bool {
+			es, ok := nd.(*ast.ExprStmt)
+			if !ok {
+				return true
+			}
+			call, ok := es.X.(*ast.CallExpr)
+			if !ok {
+				return true
+			}
+			cal := core.Callee(f.Pkg, call)
+			se, isSel := call.Fun.(*ast.SelectorExpr)
+			if cal == nil || !appender[cal] || !isSel {
+				return true
+			}
+			n++
+			c.Analysed(f)
+			recv := core.ObjOf(f.Pkg, se.X)
+			// a later append behind the same variable
+			later := func(m ast.Node) bool {
+				if m == ast.Node(es) {
+					return false
+				}
+				return core.NodeHas(m, func(x ast.Node) bool {
+					switch y := x.(type) {
+					case *ast.AssignStmt:
+						for _, l := range y.Lhs {
+							if s2, ok := core.Unparen(l).(*ast.SelectorExpr); ok && core.FieldOf(f.Pkg, s2) == next && recv != nil && core.ObjOf(f.Pkg, s2.X) == recv {
+								return true
+							}
+						}
+					case *ast.CallExpr:
+						if c2 := core.Callee(f.Pkg, y); c2 != nil && y != call {
+							if s2, ok := y.Fun.(*ast.SelectorExpr); ok && recv != nil && core.ObjOf(f.Pkg, s2.X) == recv {
+								if h := p.FnOf(c2); h != nil && h.Decl.Body != nil {
+									for _, a := range core.FieldAccesses(h.Pkg, h.Decl.Body) {
+										if a.Field == next && a.Write {
+											return true
+										}
+									}
+								}
+							}
+						}
+					}
+					return false
+				})
+			}
+			hits := core.PathAvoidingFrom(g, func(m ast.Node) bool { return m == ast.Node(es) }, func(ast.Node) bool { return false }, later)
+			c.Check(len(hits) == 0, rule, fmt.Sprintf("%s uses the tail returned by %s", f.Name(), cal.Name()), es.Pos(),
+				"the new tail returned by "+cal.Name()+" is dropped and the list is then extended behind the OLD tail: the first appended element overwrites the link to what "+cal.Name()+" added, so those attributes are missing from every UPDATE built from the path")
+			return true
+		})
+	}
+	c.Check(true, rule, fmt.Sprintf("packet package: %d discarded tail results examined", n), 0, "")
 }
